@@ -226,6 +226,7 @@ def build():
     fam.replay['SQLExecutor.run_sql'] = lambda label, inputs: _as_replay(exec_harness.check_run_sql_contract())
     fam.replay['bounded:run_sql_fault_injection'] = lambda label, inputs: _as_replay(exec_harness.check_run_sql_contract())
     fam.replay['SQLExecutor.__exit__'] = replay_executor_exit
+    fam.replay['MigrationExecutor._on_progress'] = replay_on_progress
     fam.replay['SQLExecutor.new_transaction'] = replay_new_transaction
     return fam
 
@@ -233,6 +234,8 @@ def build():
 def add_run_contracts(w):
     """Evolver.evolve and the task execute methods: run-lifecycle monitor (C07 clause 4, C17)."""
     ROW = K.Ref('EvolutionRow')
+    from .common import seq_member
+    w.spec_funcs['hasrow'] = seq_member
     w.cls('EvolutionRow', {'version': K.Opt(K.Ref('Version'))})
     w.cls('Version', {})
     w.cls('DatabaseState', {})
@@ -312,10 +315,25 @@ def add_run_contracts(w):
             1: LoopInv('for task_cls, tasks in six.iteritems(self._tasks_by_class):', index='ci',
                        clauses=['life == EVOLVING', 'saved == 0', 'len(recorded) == 0', 'not exec_failed',
                                 'not exec_after_save', 'not self.evolved',
-                                'self._tasks_by_class == old(self._tasks_by_class)' if False else 'True']),
+                                'self._tasks_by_class == old(self._tasks_by_class)' if False else 'True'],
+                       # what earlier task classes contributed stays in the list that will be recorded
+                       ghost_pre=['prev = new_evolutions'],
+                       ghost_post=['assert len(new_evolutions) >= len(prev)',
+                                   'assert forall(range(len(prev)), lambda q: sel(new_evolutions, q) is sel(prev, q))']),
             2: LoopInv('for task in tasks:', index='ti',
                        clauses=['life == EVOLVING', 'saved == 0', 'len(recorded) == 0', 'not exec_failed',
-                                'not exec_after_save', 'not self.evolved']),
+                                'not exec_after_save', 'not self.evolved',
+                                'len(new_evolutions) >= len(prev)',
+                                'forall(range(len(prev)), lambda q: sel(new_evolutions, q) is sel(prev, q))',
+                                # every row of every task visited so far has been collected
+                                'forall(range(ti), lambda t: forall(range(len(sel(ti_seq, t).new_evolutions)), lambda r: '
+                                '       hasrow(new_evolutions, sel(sel(ti_seq, t).new_evolutions, r))))'],
+                       ghost_pre=['ne0 = new_evolutions'],
+                       ghost_post=[  # proof hints for the += of this iteration
+                           'assert len(new_evolutions) == len(ne0) + len(task.new_evolutions)',
+                           'assert forall(range(len(ne0)), lambda q: sel(new_evolutions, q) is sel(ne0, q))',
+                           'assert forall(range(len(task.new_evolutions)), lambda r: '
+                           '       sel(new_evolutions, len(ne0) + r) is sel(task.new_evolutions, r))']),
         },
         ensures=[
             # normal return <=> evolved emitted last, after exactly one save
@@ -478,6 +496,39 @@ def _scratch_db():
     """Use the test settings' default sqlite database (file lives in the scratch cwd)."""
     from django.db import connections
     return connections
+
+
+def replay_on_progress(label, inputs):
+    """Call the real progress callback with the action (and any further positional arguments Django passes: the
+    `fake` flag) of the counter-model and count the signals it sends."""
+    import inspect
+    from django.db import connection
+    from django_evolution.signals import applying_migration, applied_migration
+    from django_evolution.utils.migrations import MigrationExecutor
+    action = inputs.get('action')
+    if action not in ('apply_start', 'apply_success'):
+        return {'reproduced': False, 'note': 'counter-model action %r is not a Django progress action' % (action,)}
+    extra = {k: v for k, v in inputs.items() if k not in ('self', 'action', 'migration', 'args', 'kwargs')}
+    seen = {'applying': 0, 'applied': 0}
+
+    def on_applying(**kw):
+        seen['applying'] += 1
+
+    def on_applied(**kw):
+        seen['applied'] += 1
+    applying_migration.connect(on_applying)
+    applied_migration.connect(on_applied)
+    try:
+        ex = MigrationExecutor(connection)
+        names = [n for n in inspect.signature(ex._on_progress).parameters if n in extra]
+        # Django calls progress_callback(action, migration, fake): further declared parameters are passed positionally
+        ex._on_progress(action, object(), *[extra[n] for n in names])
+    finally:
+        applying_migration.disconnect(on_applying)
+        applied_migration.disconnect(on_applied)
+    want = {'applying': 1 if action == 'apply_start' else 0, 'applied': 1 if action == 'apply_success' else 0}
+    return {'reproduced': seen != want, 'signals_sent': seen, 'signals_expected': want,
+            'inputs': dict(action=action, **extra)}
 
 
 def replay_executor_exit(label, inputs):
